@@ -64,6 +64,12 @@ pub fn cross_check(transcript: &str) -> Result<u64, String> {
         // yices-style scripts have no logic restrictions that matter to z3/cvc5
         let Some(out) = run_real(bin, &args, &script) else { continue };
         let (theirs, errs) = answers(&out);
+        // cvc5 1.0 wants a VALUE as the fill of `((as const ..) fill)`; z3 takes any term, and so does the reference
+        // solver. A script with a non-literal fill is therefore no calibration material for cvc5 (a capability
+        // difference between real solvers, like yices' missing `as const`; see DESIGN.md 10.6).
+        if bin == REAL_CVC5 && errs.iter().any(|e| e.contains("expected a value") || e.contains("expected a constant") || e.contains("for 'val'")) {
+            continue;
+        }
         if !errs.is_empty() {
             return Err(format!("{bin} reports an error on a script the reference solver accepted: {}\nscript:\n{script}", errs[0]));
         }
